@@ -294,6 +294,8 @@ Section Receive.
          else
            let szx := Z.min szx0 maxszx in
            let psize := blen (mbody cm') in
+           if refuse_restart isb1 (psize / size szx) (get_sent_request e (mtok r))
+           then (with_receiving e2 (tdel (receiving e2) key), Fail, []) else
            let sm :=
              if isb1 then
                {| mcode := Continue; mtok := key; mb1 := Some {| bszx := szx; bnum := bnum b; bmore := bmore b |};
@@ -320,8 +322,11 @@ Section Receive.
         + intros x [<-|[]]. right.
           destruct (set_block_fields isb1 cm') as [-> [-> _]].
           apply Hfull; [exact Ha|]. rewrite <- Het. rewrite Het. apply Hfin. exact Hm.
-      - split; [|intros x []]. cbn [receiving with_receiving].
-        apply rx_ok_tput; try assumption. rewrite Htrip; exact Hrx. }
+      - cbv zeta. match goal with |- context [refuse_restart ?a ?n ?q] => destruct (refuse_restart a n q) end.
+        + split; [|intros x []]. cbn [receiving with_receiving].
+          apply rx_ok_tdel. apply rx_ok_tput; try assumption. rewrite Htrip; exact Hrx.
+        + split; [|intros x []]. cbn [receiving with_receiving].
+          apply rx_ok_tput; try assumption. rewrite Htrip; exact Hrx. }
     destruct (tget (receiving e0) key) as [c|] eqn:Hc.
     - rewrite Htrip in Hc. destruct (Hrx _ _ Hc) as [Hct Hcp].
       destruct (bmore b); apply (Hgen c (bszx b) Hct Hcp); left; reflexivity.
@@ -543,11 +548,14 @@ Section Once.
         (destruct (reasm c r (bnum b * size (bszx b))) as [cm' appended];
          match goal with |- context [if ?c then _ else _] => destruct c end;
          try destruct (mtok cm' =? mtok r);
+         cbv zeta; try match goal with |- context [refuse_restart ?a ?n ?q] => destruct (refuse_restart a n q) end;
          (split; [intros Hd; try (contradiction Hd; reflexivity); cbn [receiving with_receiving with_sending]; apply tget_tdel_same
                  |intros Hn; discriminate Hn])).
     - destruct (bmore b) eqn:Hm.
       + destruct (reasm (set_body r []) r (bnum b * size (Z.min (bszx b) mx))) as [cm' appended].
-        rewrite andb_false_r. split; [intros Hd; contradiction Hd; reflexivity|reflexivity].
+        rewrite andb_false_r. cbv zeta.
+        match goal with |- context [refuse_restart ?a ?n ?q] => destruct (refuse_restart a n q) end;
+          (split; [intros Hd; contradiction Hd; reflexivity|reflexivity]).
       + destruct (bnum b =? 0) eqn:Hz; cbn [negb].
         * split; [intros _; exact Hc|]. intros _ Hne. apply Z.eqb_eq in Hz. contradiction.
         * split; [intros Hd; contradiction Hd; reflexivity|reflexivity].
@@ -647,9 +655,10 @@ Section Frame.
     all: match goal with |- context [reasm ?a ?b ?c] => destruct (reasm a b c) as [cm' appended] end.
     all: match goal with |- context [if ?c then _ else _] => destruct c end.
     all: try (destruct (mtok cm' =? key)).
+    all: cbv zeta; try match goal with |- context [refuse_restart ?a ?n ?q] => destruct (refuse_restart a n q) end.
     all: cbn [sending receiving with_sending with_receiving].
     all: split; [split; first [exact Hs0|exact Hsdel|apply Hput|apply Hdel]|].
-    all: intros wm H; injection H as H.
+    all: intros wm H; try discriminate H; injection H as H.
     all: try (right; exact (Happ _ _ _ H)).
     all: left; subst wm; destruct isb1; try reflexivity; destruct (get_sent_request e (mtok r)); reflexivity.
   Qed.
